@@ -544,8 +544,8 @@ def genXsd (s : Schema N) (dims : List (Txt × Nat)) : Except GenErr Txt :=
   | .ok st =>
     if (elementNames s).any (fun n => ¬ st.emitted.any (fun p => p.1 = n)) then .error .valueError
     else
-      let vecLines : List Txt := (sortTxt (st.vt.map (·.1))).flatMap fun n =>
-        ((lookup st.vt n).getD []).map (L "  " ++ ·) ++ [[]]
+      let vecLines : List Txt := ((sortTxt (st.vt.map (·.1))).filterMap fun n => lookup st.vt n).flatMap fun ls =>
+        ls.map (L "  " ++ ·) ++ [[]]
       let tail : List Txt :=
         [ind 2 (L "<xs:complexType name=\"include\">")]
         ++ docLinesT 4 [L "includes another MJCF file; resolved before parsing"]
@@ -617,9 +617,10 @@ def attrParts (s : Schema N) (dims : List (Txt × Nat)) (e : Element N) (a : Att
     else if a.name = "refname" ∧ "reftype" ∈ names then .ok (L "type=\"reference\" reference_namespace=\"attrib:reftype\"", none)
     else if (e.name, a.name) ∈ identifierOverrides then .ok (L "type=\"identifier\"", none)
     else if e.name = "mujoco" ∧ a.name = "model" then .ok (L "type=\"string\"", none)
-    else if (assoc basepaths a.name).isSome ∧ e.name = "compiler" then
-      .ok (L "type=\"basepath\" path_namespace=\"" ++ ((assoc basepaths a.name).getD "").toList ++ L "\"", none)
-    else match a.type with
+    else match (if e.name = "compiler" then assoc basepaths a.name else none) with
+    | some bp => .ok (L "type=\"basepath\" path_namespace=\"" ++ bp.toList ++ L "\"", none)
+    | none =>
+    match a.type with
     | .file =>
       .ok (match assoc fileNs e.name with
         | some ns => L "type=\"file\" path_namespace=\"" ++ ns.toList ++ L "\""
